@@ -116,8 +116,9 @@ structure Outcome where
   chunked : Bool       -- response uses chunked transfer encoding
   deriving DecidableEq, Repr, Inhabited
 
-/-- One complete request: headers parsed → (`early`: the handler responds before the body phase is over |
-otherwise body read, then the handler responds) → `_finish_request`. -/
+/-- One complete request: headers parsed → (`early`: the handler calls `finish()` while `_read_finished` is still
+false, i.e. inside `headers_received` / `prepare()` or in the middle of the request body after some
+`data_received` calls | otherwise body read, then the handler responds) → `_finish_request`. -/
 def serve (nka : Bool) (r : Req) (resp : Resp) (early : Bool) : Outcome :=
   let disc0 := !canKeepAlive nka r
   let (disc1, out) := writeHeaders r resp disc0        -- write_headers runs before finish()
